@@ -82,35 +82,32 @@ func (c *NoiseGrpcConn) Read(b []byte) (n int, err error) {
 	c.nextMsgMtx.Lock()
 	defer c.nextMsgMtx.Unlock()
 
-	// The last read was incomplete, return the few bytes that didn't fit.
-	if len(c.nextMsg) > 0 {
-		msgLen := len(c.nextMsg)
-		copy(b, c.nextMsg)
+	// If the last read was incomplete, we first hand out the bytes that
+	// didn't fit. Only once those are used up do we read and decrypt the
+	// next message.
+	if len(c.nextMsg) == 0 {
+		requestBytes, err := c.noise.ReadMessage(c.ProxyConn)
+		if err != nil {
+			return 0, fmt.Errorf("error decrypting payload: %v",
+				err)
+		}
 
-		c.nextMsg = nil
-		return msgLen, nil
+		c.nextMsg = requestBytes
 	}
 
-	requestBytes, err := c.noise.ReadMessage(c.ProxyConn)
-	if err != nil {
-		return 0, fmt.Errorf("error decrypting payload: %v", err)
+	// We cannot give the gRPC layer above us more than the default read
+	// buffer size of 32k bytes at a time, and we can never hand out more
+	// than what fits into the passed buffer. Whatever isn't copied now is
+	// kept for the next call.
+	chunk := c.nextMsg
+	if len(chunk) > defaultGrpcWriteBufSize {
+		chunk = chunk[:defaultGrpcWriteBufSize]
 	}
 
-	// Do we need to read this message in two parts? We cannot give the
-	// gRPC layer above us more than the default read buffer size of 32k
-	// bytes at a time.
-	if len(requestBytes) > defaultGrpcWriteBufSize {
-		nextMsgLen := len(requestBytes) - defaultGrpcWriteBufSize
-		c.nextMsg = make([]byte, nextMsgLen)
+	n = copy(b, chunk)
+	c.nextMsg = c.nextMsg[n:]
 
-		copy(c.nextMsg[0:nextMsgLen], requestBytes[defaultGrpcWriteBufSize:])
-
-		copy(b, requestBytes[0:defaultGrpcWriteBufSize])
-		return defaultGrpcWriteBufSize, nil
-	}
-
-	copy(b, requestBytes)
-	return len(requestBytes), nil
+	return n, nil
 }
 
 // Write encrypts the given application level payload and sends it as a data
